@@ -89,8 +89,8 @@ def main(ck):
     note("baseline change-point trace accepted", r["accepted"])
     plines = open(pure).read().splitlines()
 
-    def corrupt_pure(name, mut):
-        idxs = [i for i, l in enumerate(plines) if '"op":"implied"' in l and len(json.loads(l)["probs"]) >= 3]
+    def corrupt_pure(name, mut, pred=lambda e: True):
+        idxs = [i for i, l in enumerate(plines) if '"op":"implied"' in l and len(json.loads(l)["probs"]) >= 3 and pred(json.loads(l))]
         i = idxs[rnd.randrange(len(idxs))]
         out = list(plines)
         out[i] = json.dumps(mut(json.loads(out[i])))
@@ -105,14 +105,14 @@ def main(ck):
         return e
 
     def sample_out(e):
-        e["samples"][0] = [255] * 8
+        e["samples"][0] = e["nx"]        # the first value whose codeword is longer than 128 bits
         return e
 
     def drop_prob(e):
         e["probs"].pop()
         return e
     corrupt_pure("probability doubled", prob_exp)
-    corrupt_pure("sample outside brackets", sample_out)
+    corrupt_pure("sample with a codeword over 128 bits", sample_out, lambda e: e["nxt"] == "some")
     corrupt_pure("one bracket missing", drop_prob)
 
     # ---------------------------------------------------------------- 2. specification mutants
